@@ -140,8 +140,7 @@ theorem atEnd_iff_peek_eof {s : St} (hc : check s .text true = none) (hp : s.pas
 theorem textCore_get_char {s s' : St} {cp : Nat} (h : textCore true s = (s', .ok (.char cp))) :
     s'.cur = s.cur + lenUtf8 cp ∧ (rest s).take (lenUtf8 cp) = encode cp ∧
       s'.lines = s.lines + nlCount cp ∧ s'.past = s.past ∧ s'.content = s.content ∧
-      s.cur + lenUtf8 cp ≤ s.content.length ∨ False := by
-  left
+      s.cur + lenUtf8 cp ≤ s.content.length := by
   unfold textCore at h
   split at h
   · simp at h
@@ -197,8 +196,8 @@ theorem takeWhile_append_drop (p : Nat → Bool) (l : List Nat) :
   | nil => rfl
   | cons a r ih =>
     by_cases h : p a = true
-    · simp [List.takeWhile_cons, h, ih]
-    · simp [List.takeWhile_cons, h]
+    · simp [h, ih]
+    · simp [h]
 
 /-- `takeChars`: the characters taken span `m` bytes of the input, and contain as many newline
     characters as these bytes contain newline bytes. -/
@@ -269,7 +268,7 @@ theorem good_getNChars (n : Nat) {s : St} (h : Good s) (ht : s.ty = .text) :
     simp only
     have sp := takeChars_spec n (rest s)
     rw [rest_length] at sp
-    refine ⟨⟨?_, ?_⟩, rfl⟩
+    refine ⟨⟨?_, ?_⟩, trivial⟩
     · show s.cur + (takeChars n (rest s)).2 ≤ s.content.length
       have := h.1; omega
     · show s.lines + countNl (takeChars n (rest s)).1 = countNl (s.content.take (s.cur + (takeChars n (rest s)).2))
